@@ -156,3 +156,5 @@ def run(ctx):
     ctx.guarded("C08.order", r_order)
     ctx.guarded("C08.ctrlrestore.json", lambda c: cv.ctrlrestore_rule(c, "C08j", "json"))
     ctx.guarded("C08.ctrlrestore.cbor", lambda c: cv.ctrlrestore_rule(c, "C08c", "cbor"))
+    ctx.guarded("C08.argctx.json", lambda c: cv.argctx_rule(c, "C08j", "json"))
+    ctx.guarded("C08.argctx.cbor", lambda c: cv.argctx_rule(c, "C08c", "cbor"))
